@@ -56,6 +56,42 @@ CHECKS = {
             "Trusted: TLC, BigInt.tla (itself model-checked against native arithmetic in BigIntTest), the reading of the language "
             "rules in ExprOps (decimal results compared with 1e-9 tolerance; combinations marked skip are tree-checked only).",
             "DESIGN.md 4 C02"),
+    "C03": (["Machine.tla", "MachineGen.tla", "MachineRun.tla"],
+            "definitional interpreter of the evaluator in TLA+ (mirror of nodes.py evaluate / Environment / FuncLambda.execute / "
+            "Args.setArgs), generated program families model-checked by TLC (history invariants) and replayed on the interpreter "
+            "(result, error value and in-program log compared)",
+            "Families: who-sees-which-x under definition/shadowing/assignment, counters and curried closures outliving their frame, assignment to undefined names, recursion, 5 signatures x 15 argument lists (positional, named, default, rest, spread list/map/set), pipeline, method calls over a prototype chain. TLC runs every program of the family (116 quick) on the model, checks FinallyOnce / NoStmtAfterFailure / "
+            "BlocksBalanced / HandlerAfterRaise / FreshFrames (and ComprEqualsLoop) on the ghost history, and exports program, "
+            "outcome and log; each program is rendered to source and run on the real interpreter, whose result or error value "
+            "and log must equal the model's.",
+            "Trusted: TLC, Machine.tla as the reading of the language rules the statement lists, the renderer "
+            "(harness/machine.py). The families are finite and hand-designed; values are ints, booleans, strings, lists, sets, "
+            "maps, objects and closures.",
+            "DESIGN.md 4 C03"),
+    "C04": (["Machine.tla", "MachineGen.tla", "MachineRun.tla"],
+            "definitional interpreter of the evaluator in TLA+ (mirror of nodes.py evaluate / Environment / FuncLambda.execute / "
+            "Args.setArgs), generated program families model-checked by TLC (history invariants) and replayed on the interpreter "
+            "(result, error value and in-program log compared)",
+            "Families: one loop over each iterable kind (list, set, map keys/values/entries, string, empty) with break/continue/return/error guarded by four conditions before and after the logging statement, in a function and at top level; nested loops with exits in either loop; destructuring loops; while with logging condition; if ladders with logging conditions; list/set/map comprehensions and their explicit loops. TLC runs every program of the family (408 quick) on the model, checks FinallyOnce / NoStmtAfterFailure / "
+            "BlocksBalanced / HandlerAfterRaise / FreshFrames (and ComprEqualsLoop) on the ghost history, and exports program, "
+            "outcome and log; each program is rendered to source and run on the real interpreter, whose result or error value "
+            "and log must equal the model's.",
+            "Trusted: TLC, Machine.tla as the reading of the language rules the statement lists, the renderer "
+            "(harness/machine.py). The families are finite and hand-designed; values are ints, booleans, strings, lists, sets, "
+            "maps, objects and closures.",
+            "DESIGN.md 4 C04"),
+    "C05": (["Machine.tla", "MachineGen.tla", "MachineRun.tla"],
+            "definitional interpreter of the evaluator in TLA+ (mirror of nodes.py evaluate / Environment / FuncLambda.execute / "
+            "Args.setArgs), generated program families model-checked by TLC (history invariants) and replayed on the interpreter "
+            "(result, error value and in-program log compared)",
+            "Families: a block with two statements (plain / five kinds of failure / return) x 11 catch-clause sets (value, all, several clauses, raising and returning handlers, failing clause value) x 4 finally parts, at top level, inside a called function and inside a loop; an inner block as first or second statement of an outer block; break/continue through catch and finally. TLC runs every program of the family (4880 quick, ~40k thorough) on the model, checks FinallyOnce / NoStmtAfterFailure / "
+            "BlocksBalanced / HandlerAfterRaise / FreshFrames (and ComprEqualsLoop) on the ghost history, and exports program, "
+            "outcome and log; each program is rendered to source and run on the real interpreter, whose result or error value "
+            "and log must equal the model's.",
+            "Trusted: TLC, Machine.tla as the reading of the language rules the statement lists, the renderer "
+            "(harness/machine.py). The families are finite and hand-designed; values are ints, booleans, strings, lists, sets, "
+            "maps, objects and closures.",
+            "DESIGN.md 4 C05"),
     "C14": (["LexerOps.tla", "Lexer.tla", "LexerMC.tla", "ExprOps.tla", "Expr.tla"],
             "TLC-checked SameSignature invariant of the scanner mirror over separators x literal spellings; programs re-rendered "
             "from the model's separator/spelling alphabet and interpreted, observations compared",
